@@ -37,7 +37,8 @@ OBJS = TABLES + ENUMS + GROUPS + REFS + STICKY + PROJ + BAD
 RENAMES = [('A', 'name', 'a9'), ('A', 'name', 'a'), ('B', 'alias', 'y'), ('B', 'alias', 'x'), ('B', 'schema', 's2'),
            ('B', 'schema', 'public'), ('E', 'name', 'b'), ('E', 'name', 'e'), ('C', 'alias', None), ('D', 'alias', 'dd')]
 COLS = ['K1', 'K2', 'K3']
-IDX = ['I1', 'I1c', 'I2', 'IF']       # I1c equals I1 (duplicates are allowed in a table); IF has a foreign column as subject
+IDX = ['I1', 'I1c', 'I2', 'IF', 'IE', 'IEF', 'ISF', 'IOF']   # I1c equals I1 (duplicates are allowed in a table); IF has a foreign column as subject;
+# IE = expression + own column (legal); IEF / ISF / IOF = a foreign column after an expression / a string / an own column
 TOPS = [('add', o) for o in OBJS] + [('delete', o) for o in OBJS if o not in BAD] + [('delete', 'X1')] + \
        [('rename',) + r for r in RENAMES] + [('render', 'sql'), ('render', 'dbml')]
 TABLE_OPS = [('add_column', t, k) for t in ('A', 'E') for k in COLS] + [('delete_column', t, k) for t in ('A', 'E') for k in COLS] + \
@@ -51,7 +52,7 @@ KEYS = ['public.a', 'public.a9', 'public.b', 's2.b', 's.a', 'public.d', 'public.
 class World:
     def __init__(self):
         from pydbml import Database
-        from pydbml.classes import Column, Enum, Index, Project, Reference, StickyNote, Table, TableGroup
+        from pydbml.classes import Column, Enum, Expression, Index, Project, Reference, StickyNote, Table, TableGroup
         o = {}
 
         def table(name, schema='public', alias=None):
@@ -90,6 +91,10 @@ class World:
         o['I1c'] = Index([o['A'].columns[0]], name='i1')
         o['I2'] = Index([o['A'].columns[1], o['A'].columns[0]], unique=True)
         o['IF'] = Index([o['B'].columns[0]])
+        o['IE'] = Index([Expression('lower(x)'), o['A'].columns[0]])
+        o['IEF'] = Index([Expression('lower(x)'), o['B'].columns[0]])
+        o['ISF'] = Index(['v', o['B'].columns[0]])
+        o['IOF'] = Index([o['A'].columns[0], o['B'].columns[0]])
         self.o = o
         self.db = Database()
         # model
@@ -333,7 +338,8 @@ def apply(w: World, op):
             return call(lambda: t.add_index(ix), True, (TypeError,)), probs
         if ix.table is not None or any(ix is x for v in w.idx.values() for x in v):
             return 'skipped', probs
-        foreign = any(not any(s is c for c in w.cols[tn]) for s in ix.subjects)
+        from pydbml.classes import Column
+        foreign = any(isinstance(s, Column) and not any(s is c for c in w.cols[tn]) for s in ix.subjects)
         st_ = call(lambda: t.add_index(ix), foreign, (E.ColumnNotFoundError,))
         if st_ == 'accepted' and not foreign:
             w.idx[tn].append(ix)
